@@ -83,8 +83,8 @@ DEVIATIONS = {
     "DevIdx": ("Spec", "MCMapsSmall"),
     "DevSetName": ("Spec", "MCMapsSmall"),
 }
-QUICK_MODELS = ["dpd-stable-dyn-can", "dyn-can", "stable-dyn-hel"]
-THOROUGH_MODELS = ["dpd-stable-dyn-can", "dyn-can", "stable-dyn-hel", "plain-hel", "plain-can", "stable-plain-can"]
+QUICK_MODELS = ["dpd-stable-dyn-can", "dyn-can", "stable-dyn-hel", "zeroamp-hel"]
+THOROUGH_MODELS = ["dpd-stable-dyn-can", "dyn-can", "stable-dyn-hel", "plain-hel", "plain-can", "stable-plain-can", "zeroamp-hel"]
 NUMERIC_QUICK = ["merge", "swap", "kinv", "chain2"]
 NUMERIC_THOROUGH = ["inj", "merge", "chain", "chain2", "swap", "kinv", "kinint", "kindef", "p4", "ghost", "all", "unknown"]
 REL_TOL = 1e-10
